@@ -47,15 +47,19 @@ def theorems_of(mod):
 def main():
     reg = {}
     for pid, mods in MODULES.items():
-        ms, ths = [], []
+        ms, ths, by_mod = [], [], {}
         for m in mods:
             t = theorems_of(m) if pid in READY else None
             if t is None:
                 continue
             ms.append('Isotp.Props.' + m)
             ths.extend(t)
+            by_mod['Isotp.Props.' + m] = t
+        for a in AGREE.get(pid, []):
+            by_mod[a] = AGREE_THEOREMS[a]
         reg[pid] = {'modules': ms, 'theorems': ths, 'agree': AGREE.get(pid, []),
-                    'agree_theorems': sum([AGREE_THEOREMS[a] for a in AGREE.get(pid, [])], [])}
+                    'agree_theorems': sum([AGREE_THEOREMS[a] for a in AGREE.get(pid, [])], []),
+                    'by_module': by_mod}
     with open(os.path.join(HERE, 'registry.json'), 'w') as f:
         json.dump(reg, f, indent=1)
     for pid, r in reg.items():
